@@ -22,7 +22,12 @@ for v in viol[:1]:
     if mm and os.path.exists(mm.group(1)):
         open('/verif/seeded/%s/detected_replay.txt' % n, 'w').write(open(mm.group(1)).read()[:20000])
 json.dump(m, open(mp, 'w'), indent=1)
-print(n, p, 'detected' if viol else 'MISSED')
+only_broken = bool(viol) and all('no-failing-input-found' in v for v in viol)
+if only_broken:
+    # a broken build/proof with no failing input: keep what broke so that a work-in-progress artefact is not mistaken for a detection
+    m['verif_runs'][-1]['broken_detail'] = [l for l in txt.splitlines() if 'error' in l.lower()][:8]
+    json.dump(m, open(mp, 'w'), indent=1)
+print(n, p, ('BROKEN-ONLY (inspect: proof obligation or build artefact?)' if only_broken else 'detected') if viol else 'MISSED')
 PY
 if [ "$3" != "keep" ]; then
   git -C /repo worktree remove --force /tmp/mut/$N 2>/dev/null
